@@ -138,6 +138,21 @@ func vfShape(shape int) (map[string]*vfShapeRes, []vfReqKind, []vfShapeEvent) {
 			return vfShapeEvent{rid: rid, name: "custom", apply: func(svc map[string]*vfShapeRes) string { return `{"x":1}` }}
 		}
 		events = []vfShapeEvent{addRef("test.c", 1, "test.m"), custom("test.m"), custom("test.m")}
+	case 6:
+		// a change event adding two references at once, the second one slow,
+		// with events on the first meanwhile
+		svc["test.r"] = vfShapeModel("v", `"r"`)
+		svc["test.x"] = vfShapeModel("v", `"x"`)
+		svc["test.y"] = vfShapeModel("v", `"y"`)
+		kinds = []vfReqKind{vfSub("test.r")}
+		two := vfShapeEvent{rid: "test.r", name: "change", apply: func(svc map[string]*vfShapeRes) string {
+			m := svc["test.r"]
+			m.keys = append(m.keys, "a", "b")
+			m.vals["a"], m.vals["b"] = vfRefVal("test.x"), vfRefVal("test.y")
+			return `{"values":{"a":` + vfRefVal("test.x") + `,"b":` + vfRefVal("test.y") + `}}`
+		}}
+		customX := vfShapeEvent{rid: "test.x", name: "custom", apply: func(svc map[string]*vfShapeRes) string { return `{"x":1}` }}
+		events = []vfShapeEvent{two, customX, customX}
 	case 1:
 		// a collection gaining a reference to a resource the client also
 		// subscribes directly, the collection being left meanwhile
